@@ -2,6 +2,7 @@ package checks
 
 import (
 	"crypto"
+	"crypto/ecdsa"
 	"crypto/rsa"
 	"crypto/x509"
 	"embed"
@@ -18,13 +19,19 @@ import (
 var keyFS embed.FS
 
 type keyPair struct {
-	Alg  int64
-	Idx  int
-	Priv crypto.Signer
-	Pub  crypto.PublicKey
+	Alg      int64
+	Idx      int
+	Priv     crypto.Signer
+	Pub      crypto.PublicKey
+	curveAlg int64 // != 0: the key's curve is that of another ECDSA algorithm
 }
 
-func (k keyPair) Name() string { return fmt.Sprintf("%s#%d", icose.AlgName(k.Alg), k.Idx) }
+func (k keyPair) Name() string {
+	if k.curveAlg != 0 {
+		return fmt.Sprintf("%s-over-%s-curve#%d", icose.AlgName(k.Alg), icose.AlgName(k.curveAlg), k.Idx)
+	}
+	return fmt.Sprintf("%s#%d", icose.AlgName(k.Alg), k.Idx)
+}
 
 var (
 	keyMu    sync.Mutex
@@ -63,19 +70,45 @@ func keyFor(alg int64, idx int) keyPair {
 	switch alg {
 	case icose.ES256, icose.ES384, icose.ES512:
 		p := icose.ECDSAKey(icose.CurveFor(alg), []byte(id))
-		kp = keyPair{alg, idx, p, &p.PublicKey}
+		kp = keyPair{Alg: alg, Idx: idx, Priv: p, Pub: &p.PublicKey}
 	case icose.EdDSA:
 		p := icose.Ed25519Key([]byte(id))
-		kp = keyPair{alg, idx, p, p.Public()}
+		kp = keyPair{Alg: alg, Idx: idx, Priv: p, Pub: p.Public()}
 	default:
 		if rsaKeys == nil {
 			rsaKeys = []*rsa.PrivateKey{loadRSA("rsa0.pem"), loadRSA("rsa1.pem"), loadRSA("rsa2.pem")}
 		}
 		p := rsaKeys[idx]
-		kp = keyPair{alg, idx, p, &p.PublicKey}
+		kp = keyPair{Alg: alg, Idx: idx, Priv: p, Pub: &p.PublicKey}
 	}
 	keyCache[id] = kp
 	return kp
+}
+
+// keyForCurve: an ECDSA key pair whose curve is that of curveAlg, to be used
+// with algorithm alg (go-cose allows e.g. ES256 over a P-384 key).
+func keyForCurve(alg, curveAlg int64, idx int) keyPair {
+	if curveAlg == alg {
+		return keyFor(alg, idx)
+	}
+	keyMu.Lock()
+	defer keyMu.Unlock()
+	id := fmt.Sprintf("%d@%d/%d", alg, curveAlg, idx)
+	if k, ok := keyCache[id]; ok {
+		return k
+	}
+	p := icose.ECDSAKey(icose.CurveFor(curveAlg), []byte(id))
+	kp := keyPair{Alg: alg, Idx: idx, Priv: p, Pub: &p.PublicKey, curveAlg: curveAlg}
+	keyCache[id] = kp
+	return kp
+}
+
+// SigLen: the signature length COSE prescribes for this key/algorithm pair.
+func (k keyPair) SigLen() int {
+	if pub, ok := k.Pub.(*ecdsa.PublicKey); ok {
+		return 2 * ((pub.Curve.Params().BitSize + 7) / 8)
+	}
+	return icose.SigLen(k.Alg)
 }
 
 func rsa1024Key() *rsa.PrivateKey {
